@@ -129,3 +129,15 @@ Lemma continuation_length : forall lines, (length (continuation lines) <= length
 Proof.
   induction lines as [|b r IH]; simpl; auto. destruct b; simpl; lia.
 Qed.
+
+(* resolveFramer never hands back anything but a framer, whatever contexts are (not) given *)
+Lemma resolve_framer_only_framers_l : forall reg name contexts s,
+  resolve_framer reg name contexts = FOk s ->
+  lookup_t reg name = Some (TFramer s) /\ (contexts = [] \/ memN s contexts = true).
+Proof.
+  intros reg name contexts s H. unfold resolve_framer in H.
+  destruct (lookup_t reg name) as [[s'|]|]; try discriminate.
+  destruct contexts as [|c cs].
+  - inversion H; subst. split; auto.
+  - destruct (memN s' (c :: cs)) eqn:E; try discriminate. inversion H; subst. split; auto.
+Qed.
